@@ -1022,6 +1022,17 @@ def check_import_has_no_side_effects(cx: Cx, rule='R-ENTROPY'):
         for st in mi.tree.body:
             n += 1
             if isinstance(st, ast.Expr) and isinstance(st.value, ast.Call):
+                # the package's own logger may be set up at import (`logging.getLogger(__name__).addHandler(logging.NullHandler())`,
+                # `_logger.setLevel(...)`): that configures an object of the package, nothing process-wide
+                fsrc = ast.unparse(st.value.func)
+                root = st.value.func
+                while isinstance(root, (ast.Attribute, ast.Call)):
+                    root = root.value if isinstance(root, ast.Attribute) else root.func
+                own_logger = isinstance(root, ast.Name) and (
+                    (mi.imports.get(root.id) == 'logging' and fsrc.startswith(root.id + '.getLogger(')) or
+                    (root.id in mi.assigns and 'getLogger(' in ast.unparse(mi.assigns[root.id])))
+                if own_logger and fsrc.rsplit('.', 1)[-1] in ('addHandler', 'setLevel', 'addFilter'):
+                    continue
                 bad = bad or (mi, st)
     if bad:
         mi, st = bad
